@@ -109,12 +109,12 @@ package internal
 //@   ensures S2: err != nil ==> fromEnv(err) && !hostPath(err) && !isHTTP(err)
 //@   ensures S3: servedMS == ms
 //@   ensures S4: forall g http.Header, k string :: g != respHeader(w) ==> hget(hv, g, k) == old(hget(hv, g, k))
-//@ -- Prop.Decode is reflection plus the XML token decoder: assumed (T-xml). A missing element is a 404.
+//@ -- Prop.Decode: proved relative to valueXMLName (reflection, T-xml) and RawXMLValue.Decode (token replay, T-xml). A missing element is a 404.
 //@ func internal.(*Prop).Decode(p, v) (err)
-//@   trusted T-xml
 //@   requires R1: p != nil
+//@   allocates
 //@   decodes v
-//@   ensures P1: err != nil ==> (httpCode(err) == 404 || (!isHTTP(err) && httpCode(err) == -1 && fromDecoder(err))) && !hostPath(err)
+//@   ensures P1: err != nil ==> httpCode(err) == 404 || (!isHTTP(err) && httpCode(err) == -1 && fromDecoder(err) && !hostPath(err))
 //@ func internal.IsNotFound(err) (r)
 //@   ensures N1: r <==> httpCode(err) == 404
 //@ func internal.NewMultiStatus(resps) (ms)
@@ -319,13 +319,14 @@ package internal
 //@ func internal.valueXMLName(v) (name, err) as vxName, vxErr
 //@   trusted T-xml
 //@   pure
+//@   ensures err != nil ==> !isHTTP(err) && httpCode(err) == -1 && fromDecoder(err) && !hostPath(err)
 //@ -- RawXMLValue.Decode replays the stored tokens into encoding/xml (T-xml): fills the target or fails, never panics
 //@ func internal.(*RawXMLValue).Decode(val, v) (err)
 //@   trusted T-xml
 //@   requires R1: val != nil
 //@   decodes v
 //@   assigns ghost:dlLast
-//@   ensures D1: err != nil ==> !isHTTP(err) && fromDecoder(err)
+//@   ensures D1: err != nil ==> !isHTTP(err) && httpCode(err) == -1 && fromDecoder(err) && !hostPath(err)
 //@   ensures D2: dlLast == (err == nil ? smt("$(Array Int Iface)", "(store $0 (i_tag $1) $1)", old(dlLast), v) : old(dlLast))
 //@ spec opaque hasProp(ps PropStat, name xml.Name) bool = exists i int :: 0 <= i && i < len(ps.Prop.Raw) && namedRaw(ps.Prop.Raw[i]) && rawName(ps.Prop.Raw[i]) == name
 //@ spec opaque hasPropP(p *Prop, name xml.Name) bool = exists i int :: 0 <= i && i < len(p.Raw) && namedRaw(p.Raw[i]) && rawName(p.Raw[i]) == name
